@@ -21,6 +21,10 @@ func (u *Unit) execInstr(fr *Frame, st *State, in ssa.Instruction) {
 				u.allocTypes = map[int]types.Type{}
 			}
 			u.allocTypes[u.allocs] = elem
+			if u.allocPC == nil {
+				u.allocPC = map[int]Term{}
+			}
+			u.allocPC[u.allocs] = st.pc
 			ref := IntLit(int64(-u.allocs))
 			root := structRootName(elem)
 			_ = sty
@@ -564,7 +568,11 @@ func (u *Unit) typeAssert(fr *Frame, st *State, x *ssa.TypeAssert, where string)
 		fr.vals[x] = &TupleV{Vs: []Val{val, &Scalar{T: ok, Typ: types.Typ[types.Bool]}}}
 		return
 	}
-	u.oblige("nopanic.type_assert", []string{"C13"}, "", st.pc, ok, where, "single-result type assertion to "+typeString(x.AssertedType))
+	taProps := []string{"C13"}
+	if fc := u.eng.cs.Funcs[u.curKey()]; fc != nil && fc.Flags["untagged_panics"] {
+		taProps = nil
+	}
+	u.oblige("nopanic.type_assert", taProps, "", st.pc, ok, where, "single-result type assertion to "+typeString(x.AssertedType))
 	u.assume(st.pc, ok)
 	fr.vals[x] = val
 }
